@@ -255,7 +255,9 @@ func compare(cs Case, before, after *sqlm.Dump, changed []string, haveChangeSet 
 	}
 }
 
-func sortRows(r [][]string) { sort.Slice(r, func(i, j int) bool { return slices.Compare(r[i], r[j]) < 0 }) }
+func sortRows(r [][]string) {
+	sort.Slice(r, func(i, j int) bool { return slices.Compare(r[i], r[j]) < 0 })
+}
 
 func head(r [][]string) [][]string {
 	if len(r) > 6 {
